@@ -55,7 +55,9 @@ RULE = (
     'sources (all single and pair failing-index sets for n <= 6/8, one cut), '
     'MultiplexIterator over 2-3 sources, pipelines (10 shapes: single / named / no '
     'aggregate / 2- and 3-stage chains with the aggregate in the last, the first, or '
-    'several stages / sliced aggregates with add_slice, x 2 aggregator modes over a '
+    'several stages / sliced aggregates with add_slice, plus 5 key-path shapes: the '
+    'aggregate output key and / or the slicer features are Key paths, single stage and '
+    '2-stage chain, x 2 aggregator modes over a '
     'fixed source list, all single cuts, all cut pairs for short streams, a subset of '
     'cut triples), two restores from one checkpoint object (double_restore), threads '
     '(seeded random (source, k, cut, sleep) cases), and seeded random larger cases '
@@ -97,6 +99,12 @@ ASSUMPTIONS = [
     'watchdog is inconclusive',
     'the returned value of the iterator (StopIteration.value = AggregateResult) is '
     'compared as a second form of the final aggregate',
+    'key-path shapes: the aggregate output key is tree.Key.new(\'out\', \'agg\') (its '
+    'result is read from the nested result {\'out\': {\'agg\': ..}}) and / or the records '
+    'are nested batches {\'x\': {\'v\', \'f\', \'g\'}} aggregated over Key.new(\'x\', \'v\') '
+    'with add_slice(Key.new(\'x\', \'f\')) and add_slice((Key.new(\'x\', \'f\'), '
+    'Key().at(\'x\').at(\'g\'))); same cut lists, transports and restore forms as the '
+    'other shapes, enumerated part only (not in the random / threaded part)',
 ]
 REQUIRED = [
     'src_seq_checks', 'src_seq-shard_checks', 'src_seq-nested-shard_checks',
@@ -111,6 +119,7 @@ REQUIRED = [
     'pipe_sliced_checks', 'double_restore_checks',
     'thread_checks', 'thread_k1_checks', 'thread_k2_checks', 'thread_k3_checks',
     'thread_original_continues_checks', 'second_generation_cases', 'rebatch_restore_checks',
+    'pipe_keypath_checks', 'pipe_keypath_state_captures', 'pipe_keypath_slicer_checks',
 ]
 EXHAUSTIVE = {'quick': True, 'thorough': True}
 CHUNK_TIMEOUT_S = {'quick': 240, 'thorough': 3000}
@@ -127,6 +136,20 @@ K_SLICE = 'restore-loses-slice-states'
 K_ALIAS = 'restore-aliases-checkpoint-agg-state'
 K_RET = 'restored-iterator-returns-no-aggregate-result'
 K_DIT = 'data-iterator-state-before-first-next-forgets-restored-position'
+K_KEYCOPY = 'key-path-not-deep-copyable-breaks-iterator-state'
+
+
+def _exc_mech(shape, e, default):
+  """Mechanism key of an exception raised while capturing / restoring a state.
+
+  Input class: the aggregate output key or a slicer feature of the pipeline is a
+  Key path; symptom: the TypeError that copy.deepcopy raises for such a path
+  (Key answers the __deepcopy__ probe with a longer path, which is then called).
+  """
+  if (shape in L.KEYPATH_SHAPES and isinstance(e, TypeError)
+      and "'Key' object is not callable" in str(e)):
+    return K_KEYCOPY
+  return default
 
 
 def _sample(ctx, case, nontrivial):
@@ -422,6 +445,11 @@ def check_pipe_case(ctx, case):
   ctx.count('pipe_single_checks' if n_stages == 1 else 'pipe_chain_checks')
   if shape in L.SLICED_SHAPES:
     ctx.count('pipe_sliced_checks')
+  if shape in L.KEYPATH_SHAPES:
+    ctx.count('pipe_keypath_checks')
+    ctx.count('pipe_keypath_state_captures', len(cuts))
+    if shape in L.KEYPATH_SLICED_SHAPES:
+      ctx.count('pipe_keypath_slicer_checks')
   if fail:
     ctx.count('pipe_ignore_error_checks')
   if make_shard:
@@ -470,7 +498,7 @@ def check_pipe_case(ctx, case):
   except Exception as e:  # pylint: disable=broad-exception-caught
     gen = '1' if r <= 1 else '2+'
     _viol(ctx, 'exception', case, {'restore': r, 'err': repr(e)},
-          f'{cls}-restore-gen{gen}-raises-{type(e).__name__}')
+          _exc_mech(shape, e, f'{cls}-restore-gen{gen}-raises-{type(e).__name__}'))
     return
   if rest != outs[pos:]:
     elements_ok = False
@@ -588,7 +616,7 @@ def check_double_restore_case(ctx, case):
                       else L.norm_agg(itr.agg_result)))
   except Exception as e:  # pylint: disable=broad-exception-caught
     _viol(ctx, 'exception', case, {'err': repr(e)},
-          f'pipeline-double-restore-raises-{type(e).__name__}')
+          _exc_mech(shape, e, f'pipeline-double-restore-raises-{type(e).__name__}'))
     return
   for which, (rest, agg) in enumerate(results, start=1):
     n_ok = (len(before) + len(rest) == n_full) if meanvar else (
@@ -1183,7 +1211,7 @@ def plan(tier, seed):
   srcs = pipe_sources()
   items, weights = [], []
   for si, (cfg, mk, max_g) in enumerate(srcs):
-    for shape in PIPE_SHAPES:
+    for shape in PIPE_SHAPES + L.KEYPATH_SHAPES:
       items.append({'src_index': si, 'shape': shape})
       weights.append(len(pipe_cases_for(cfg, mk, max_g, shape)))
   for group in _pack(items, weights, 24):
